@@ -23,6 +23,7 @@ import (
 	"errors"
 	"fmt"
 	"net"
+	"os"
 	"reflect"
 	"strconv"
 	"strings"
@@ -249,6 +250,8 @@ type c10KaUDP struct {
 	peers   map[int]*c10KaUDPPeer
 	sent    int
 	err     error
+	dbgBase time.Time
+	dbgWant map[string]time.Duration
 }
 
 func c10KaStartUDP(max uint32, per int64) (*c10KaUDP, error) {
@@ -352,16 +355,25 @@ func (tr *c10KaUDP) answerPing(i int, gen int) {
 	}
 	_, _ = p.sock.WriteToUDP(encodeWire(typ, 0, p.pingMIDs[gen-1], nil, nil, nil), tr.dst)
 }
-func (tr *c10KaUDP) barrier(i int) bool {
-	p := tr.peers[i]
-	p.mid++
-	m := p.mid
-	if _, err := p.sock.WriteToUDP(encodeWire(0, 0, m, nil, nil, nil), tr.dst); err != nil {
-		return false
+
+// barrier: a REQUEST, not a CoAP ping.  The answer to a ping that is still awaited (and every Reset) is handed to the
+// connection's receive queue after the ping's handler has run, and the queue's goroutine stamps the monitor once
+// more when it is done with a message (udp/client.Conn.handleReq: defer Notify) -- some time later.  The queue is
+// first-in first-out and the response to a request is written after that request's own stamp, so when the response
+// is back no stamp of anything sent before is still to come and the harness can set the virtual one.
+func (tr *c10KaUDP) barrier(i int) bool { return tr.exchange(tr.peers[i]) }
+func (tr *c10KaUDP) tick(now time.Time) {
+	if os.Getenv("HXDBG") != "" {
+		tr.mu.Lock()
+		for a, cc := range tr.conns {
+			if m, ok := cc.InactivityMonitor().(interface{ LastActivity() time.Time }); ok {
+				fmt.Fprintf(os.Stderr, "tick: %s last=%v want=%v closed=%v\n", a, m.LastActivity().Sub(tr.dbgBase), tr.dbgWant[a], cc.Context().Err() != nil)
+			}
+		}
+		tr.mu.Unlock()
 	}
-	return tr.read(p, func(w wireMsg, _ []byte) bool { return !w.Bad && w.Typ == 3 && w.MID == m })
+	tr.s.VerifTick(now)
 }
-func (tr *c10KaUDP) tick(now time.Time) { tr.s.VerifTick(now) }
 func (tr *c10KaUDP) droppedBy(i int) bool {
 	tr.mu.Lock()
 	defer tr.mu.Unlock()
@@ -397,6 +409,10 @@ func (tr *c10KaUDP) setStamp(i int, t time.Time) {
 	if err := c10KaSetStamp(cc.InactivityMonitor(), t); err != nil {
 		tr.err = err
 	}
+	if tr.dbgWant == nil {
+		tr.dbgWant = map[string]time.Duration{}
+	}
+	tr.dbgWant[tr.peers[i].addr.String()] = t.Sub(tr.dbgBase)
 }
 func (tr *c10KaUDP) finish() (bool, bool, int) {
 	alive := true
@@ -719,6 +735,9 @@ func c10KaExec(tcpTr bool, max uint32, per int64, n int, script []c10KaEv, only 
 	}
 	res := c10KaExecRes{peers: make([]c10KaPeerRes, n)}
 	base := time.Now()
+	if u, ok := tr.(*c10KaUDP); ok {
+		u.dbgBase = base
+	}
 	at := func(t int64) time.Time { return base.Add(time.Duration(t)) }
 	obsOf := func(p *c10KaPeerRes, i int, closed bool) string {
 		var o []string
